@@ -82,10 +82,10 @@ type opJ struct {
 	Bundle      *bundleJ  `json:"bundle,omitempty"`
 	Bundles     []bundleJ `json:"bundles,omitempty"`
 	OverrideAll bool      `json:"override_all,omitempty"`
-	FaultN      int       `json:"fault_n,omitempty"`    // fail the n-th storage write of this operation (0 = none)
+	FaultN      int       `json:"fault_n,omitempty"`     // fail the n-th storage write of this operation (0 = none)
 	FaultAfter  bool      `json:"fault_after,omitempty"` // the failing write is applied before the error
-	Garbage     bool      `json:"garbage,omitempty"`    // corrupt: invalid JSON instead of Rule
-	Retry       bool      `json:"retry,omitempty"`      // the same update as the previous operation, which failed with a storage error
+	Garbage     bool      `json:"garbage,omitempty"`     // corrupt: invalid JSON instead of Rule
+	Retry       bool      `json:"retry,omitempty"`       // the same update as the previous operation, which failed with a storage error
 	// kind "overlap": update A is parked inside its first storage write (it holds RuleManager's lock), update B
 	// is started meanwhile; B must wait, and the outcome must be that of A then B
 	A *opJ `json:"a,omitempty"`
@@ -144,6 +144,7 @@ func (r ruleJ) coq() string {
 	return fmt.Sprintf("(Rule %s %s %s %s %s %s %s %s %s %s None)", bs(r.G), bs(r.I), coqfmt.Z(int64(r.Index)), coqfmt.Bool(r.Override),
 		s, e, role, coqfmt.Z(int64(r.Count)), coqfmt.Z(int64(r.Ver)), coqfmt.Bool(ok1 && ok2 && !r.BadOp && r.keysEncoded()))
 }
+
 // memDecodable: b starts with a memcomparable byte string (groups of 8 data bytes + marker; marker 0xff =
 // more groups follow, 0xff-n = the last n data bytes are zero padding). Written from the format, not from
 // pkg/codec.
@@ -379,7 +380,7 @@ func dump(m *placement.RuleManager) dumpInfo {
 
 // ---------- the world ----------
 type world struct {
-	keyType string // pd-server.key-type of the cases of the keytype class
+	keyType  string // pd-server.key-type of the cases of the keytype class
 	kv       *kvx13.Base
 	st       *core.Storage
 	live     *placement.RuleManager
@@ -525,8 +526,8 @@ func storeKey(g, i string) string {
 
 type stepOut struct {
 	opCoq, obsCoq, res string
-	live              *dumpInfo
-	nWrites           int
+	live               *dumpInfo
+	nWrites            int
 }
 
 func (w *world) exec(o opJ) stepOut {
@@ -1479,11 +1480,11 @@ func genBig(r *rng.R, etcd bool) caseJ {
 }
 
 type caseJ struct {
-	Stream string `json:"stream"`
-	Etcd   bool   `json:"etcd,omitempty"` // run on PD's etcd kv.Base (embedded etcd) instead of the memory kv
-	Server bool   `json:"server,omitempty"` // run on a real pd server: restarts are RaftCluster.Stop/Start or another member's manager
+	Stream  string `json:"stream"`
+	Etcd    bool   `json:"etcd,omitempty"`     // run on PD's etcd kv.Base (embedded etcd) instead of the memory kv
+	Server  bool   `json:"server,omitempty"`   // run on a real pd server: restarts are RaftCluster.Stop/Start or another member's manager
 	KeyType string `json:"key_type,omitempty"` // pd-server.key-type (table / txn): clients' keys are validated as memcomparable encodings
-	Ops    []opJ  `json:"ops"`
+	Ops     []opJ  `json:"ops"`
 }
 
 // ---------- key type table / txn: rule keys are memcomparable encodings of 3..17 raw bytes ----------
@@ -1502,6 +1503,9 @@ func genKeyType(r *rng.R) caseJ {
 	c := caseJ{Stream: "keytype", KeyType: []string{"table", "txn"}[r.Intn(2)]}
 	g := &gen{r: r, known: map[[2]string]ruleJ{{"pd", "default"}: {G: "pd", I: "default", Role: "voter", Count: 3}}}
 	enc := func(ru *ruleJ) {
+		if ru.KT != "" { // a configured rule sent again: same object, same keys
+			return
+		}
 		ru.KT = c.KeyType
 		if r.Pct(8) { // a raw key sent to an encoded-mode cluster: refused
 			return
